@@ -81,7 +81,7 @@ SPEC = r"""
             ==> r is Err && final(scopes).world() == old(scopes).world() && final(names_in_binding)@ == old(names_in_binding)@, // [C13:list_pattern_requires_equal_length_or_at_least_n_minus_1_with_collect]
         shape_ok(lhs@.len() as int, *collect, rhs.items@.len() as int)
             ==> (r is Ok, final(scopes).world(), final(names_in_binding)@)
-                == bind_items(old(scopes).world(), old(names_in_binding)@, lhs@, *collect, rhs.items@, bind_type, 0), // [C13_C20:each_pattern_gets_the_element_at_its_position_and_rest_gets_exactly_the_remaining_elements_as_a_fresh_list]
+                == bind_items(old(scopes).world(), old(names_in_binding)@, lhs@, *collect, rhs.items@, bind_type, 0), // [C13_C14_C20:each_pattern_gets_the_element_at_its_position_and_rest_gets_exactly_the_remaining_elements_as_a_fresh_list]
         r matches Err(e) ==> located(e), // [C17:list_destructuring_errors_are_located]
 """
 
@@ -125,7 +125,7 @@ def build(read):
         HASHSET,
         "// ---- verbatim from src/eval/bind.rs", bind_type,
         "impl Clone for BindType { #[verifier::external_body] fn clone(&self) -> (r: Self) ensures r == *self { unimplemented!() } }\nimpl Copy for BindType {}",
-        MODEL,
+        parts.with_wrapper_ctors(MODEL, b, read),
         "// ---- function under contract (verbatim body; contract text inserted at anchors)",
         f,
         parts.FOOTER,
